@@ -1091,6 +1091,14 @@ namespace Pistache::Http
         allSteps[2] = std::make_unique<BodyStep>(&response);
     }
 
+    void Private::ParserImpl<Http::Response>::reset()
+    {
+        ParserBase::reset();
+
+        // nothing of a response that was given up half-way may show up in the next one
+        response = Response();
+    }
+
     void Handler::onInput(const char* buffer, size_t len,
                           const std::shared_ptr<Tcp::Peer>& peer)
     {
